@@ -8,6 +8,7 @@ import TinsModel.Props.C17
 #print axioms Tins.Props.C17.ts_total_preserved
 #print axioms Tins.Props.C17.ts_file_roundtrip
 #print axioms Tins.Props.C17.loop_filtermap
+#print axioms Tins.Props.C17.loop_until_escape
 #print axioms Tins.Props.C17.loop_no_fault
 #print axioms Tins.Props.C17.handler_never_faults
 #print axioms Tins.Props.C17.loop_no_escape
